@@ -6,8 +6,23 @@ ENC = ["cminx.documentation_types.<Kind>Documentation.process", "cminx.rstwriter
 SHAPE_NAMES = ["plain", "blank", "field ':f: w'", "bullet '* w'", "indented continuation", "directive '.. x:: w'", "literal marker 'w::'"]
 
 
+def count(kind, shape, doc):
+    n = len(doc)
+    if kind in ("function", "macro", "generic", "ctest"): return n + 1 + shape["np"]
+    if kind == "variable": return n + 1 + (1 if shape["vtype"] != "UNSET" else 0)
+    if kind == "option": return n + 2 + (1 if shape["default"] else 0)
+    if kind in ("test", "section", "module"): return n + 1
+    c = 1 + shape["bases"] + shape["inner"]
+    for (nt, npar, has_args) in shape["ctors"] + shape["methods"]:
+        c += 1 + nt + npar
+    for has_default in shape["attrs"]:
+        c += 1 + (1 if has_default else 0)
+    return n + c
+
+
 def render_ob(prefix, kind, shape, doc, L, timeout=300):
-    return vf.CH(f"{prefix} render {kind} {shape} doc-shapes={tuple(doc)} L={L}", "render.py", dict(KIND=kind, SHAPE=shape, DOC=tuple(doc), L=L),
+    return vf.CH(f"{prefix} render {kind} {shape} doc-shapes={tuple(doc)} L={L}", "render.py",
+                 dict(KIND=kind, SHAPE=shape, DOC=tuple(doc), L=L, NCP=count(kind, shape, doc) * L),
                  timeout=timeout, encodes=ENC,
                  symbolic="every name / parameter / value / type / doc-line word (exactly L arbitrary code points each, no LF/CR); boolean fields (kwargs, macro, EXPECTFAIL)",
                  bound=f"entry kind {kind}, shape {shape}, doc lines of shapes {[SHAPE_NAMES[i] for i in doc]}, every piece exactly {L} chars")
